@@ -3,6 +3,7 @@ import random
 from common import *
 import simlib
 import locallib
+import backendx
 
 
 def gen_local(rng):
@@ -146,7 +147,7 @@ def oracle(lines, impl, expect):
 def run(tier, seed, replay):
     rep = Report("C13", tier, seed)
     rng = random.Random(seed)
-    proofs_ok, ready = prepare(rep, bins=("local",))
+    proofs_ok, ready = prepare(rep, bins=("local", "kernels"))
     if not ready:
         return rep.finish()
     n = 300 if tier == "quick" else 8000
@@ -195,7 +196,17 @@ def run(tier, seed, replay):
         if pr:
             oracle_fail.append(dict(problem=pr[0], script=sc))
     rep.cov["immediate_emission_scripts"] = len(imm)
-    rep.cov["evaluations"] = len(scripts)
+    # implementation-only: the same question with a REAL transport (example backend over loopback TCP): the status changes are
+    # made by the backend's own systems in their own schedule sets, not by the harness
+    nbx = 24 if tier == "quick" else 400
+    bx = [backendx.gen_transition(rng) for _ in range(nbx)]
+    bx_lines = ["backendx " + "/".join(st) for st, _ in bx]
+    for l, o, (_, em) in zip(bx_lines, run_lines(harness_bin("kernels"), bx_lines, shards=min(8, len(bx_lines))), bx):
+        why = backendx.judge_transition(o, em)
+        if why:
+            oracle_fail.append(dict(problem=dict(why=why, implementation=o[:600]), script=[l]))
+    rep.cov["backend_transition_scripts"] = dict(cases=nbx, rule="a real server app and a real client app over the example backend; client events and triggers written in singleplayer frames, connected frames, the frame in which the socket resource is removed and the frame in which end-of-stream is read after a server stop; each must be observed exactly once: at the remote server or as a local re-emission")
+    rep.cov["evaluations"] = len(scripts) + len(imm) + nbx
     rep.cov["traces_validated_against_impl"] = len(scripts)
     rep.cov["distinct_nontrivial"] = len(nontriv)
     rep.cov["rule"] = ("one real app per script, built with or without the client-side plugins, driven through server start/stop, client disconnected/connecting/connected, a remote client joining/leaving, "
